@@ -267,6 +267,13 @@ def oracle_C02(rs, n, ctx):
         if kind == "halves":
             ax = int(rs.randint(nd))
             cut = int(rs.randint(1, cells[ax]))
+            if rs.rand() < 0.5:
+                # interface within three cells of an off-node source, either side: the source initialisation and the
+                # first updates then see the contrast (cell registration errors show up here)
+                srel = tuple(float(rs.uniform(0.1, cells[a] - 0.1)) * d[a] for a in range(nd))
+                scls = "interior-near-interface"
+                ks = int(srel[ax] / d[ax])
+                cut = int(min(max(ks + rs.randint(-2, 4), 1), cells[ax] - 1))
             v1, v2 = 1.0, float(rs.choice([1.5, 2.0, 4.0]))
             if rs.rand() < 0.5:
                 v1, v2 = v2, v1
